@@ -1,12 +1,13 @@
 """C05 - variables have their declared type; arrays keep written layout and shape (G, EXH, GRD; DESIGN 5/C05)."""
 import ast
+import re
 
 from ..report import Inconclusive
 from ..gram import model as gm
 from ..gram.g4 import Ref, Alt
 from ..py.ctxtypes import ContextClasses
 from ..py.guards import AEval, Reach, always_raises, resolved_text, stmt_of
-from ..py.index import u, walk_shallow
+from ..py.index import u, walk_shallow, pos
 from . import common
 
 SCALAR = "listener.BlackbirdListener.exitExpressionvar"
@@ -42,7 +43,7 @@ def c05_1(rep, ix, G):
     vt = G.R["vartype"].body
     toks = [x.name for a in vt.alts for it in a.items for x in ([it] if isinstance(it, Ref) else [y for b in getattr(it, "alts", []) for y in b.items if isinstance(y, Ref)])]
     lits = sorted(G.literal_of(t) for t in toks)
-    g = ix.module_globals("listener")
+    g = ix.module_globals("listener", follow=True)
     for name, want, alt in (("PYTHON_TYPES", PY_WANT, None), ("NUMPY_TYPES", NP_WANT, NP_ALT)):
         d = g.get(name)
         if not isinstance(d, ast.Dict):
@@ -63,25 +64,32 @@ def c05_2(rep, ix):
     f = ix.func(SCALAR)
     fn = f.node
     stores = [n for n in walk_shallow(fn) if isinstance(n, ast.Assign) and isinstance(n.targets[0], ast.Subscript) and u(n.targets[0].value) == TABLE]
-    if len(stores) != 1 or not isinstance(stores[0].value, ast.Name):
-        raise Inconclusive("exitExpressionvar: single store `_VAR[name] = <name>` not recognised")
-    st = stores[0]
-    fv = st.value.id
-    key = resolved_text(fn, st.targets[0].slice, st)
-    rep.check(key == "ctx.name().getText()", R, ix.site(f, st), "the variable is stored under the text of its name", "key `%s`" % key, key="key")
-    defs = [n for n in walk_shallow(fn) if isinstance(n, ast.Assign) and u(n.targets[0]) == fv]
+    if not stores:
+        raise Inconclusive("exitExpressionvar: no store `_VAR[name] = ...` found")
     vsrc = [n for n in walk_shallow(fn) if isinstance(n, ast.Assign) and isinstance(n.targets[0], ast.Name) and " ".join(u(n.value).split()) in ("_expression(ctx.expression())", "_literal(ctx.nonnumeric())")]
     if not vsrc or len({n.targets[0].id for n in vsrc}) != 1:
         raise Inconclusive("exitExpressionvar: the evaluated initialiser is not bound to one local name")
     VAL = vsrc[0].targets[0].id
-    vt = None
-    for d in defs:
-        v = d.value
+    # every value that can be stored: the stored expression itself, or - when a local is stored - each definition of that local
+    candidates = []
+    for st in stores:
+        key = resolved_text(fn, st.targets[0].slice, st)
+        rep.check(key == "ctx.name().getText()", R, ix.site(f, st), "the variable is stored under the text of its name", "key `%s`" % key, key="key")
+        if isinstance(st.value, ast.Name) and st.value.id != VAL:
+            defs = [n for n in walk_shallow(fn) if isinstance(n, ast.Assign) and u(n.targets[0]) == st.value.id]
+            if not defs:
+                rep.bad(R, ix.site(f, st), "`%s` stores a value defined in this handler" % " ".join(u(st).split())[:60], key="nodef|" + st.value.id)
+            candidates += [(d, d.value) for d in defs]
+        else:
+            candidates.append((st, st.value))
+    seen_cast = set()
+    for d, v in candidates:
         txt = " ".join(u(d).split())[:70]
         if isinstance(v, ast.Call) and isinstance(v.func, ast.Subscript) and u(v.func.value) in ("PYTHON_TYPES", "NUMPY_TYPES"):
             tkey = resolved_text(fn, v.func.slice, d)
             ok = tkey == "ctx.vartype().getText()" and len(v.args) == 1 and u(v.args[0]) == VAL
-            rep.check(ok, R, ix.site(f, d), "`%s` casts the initialiser with the constructor of the declared type" % txt, "type key `%s`" % tkey, key="cast|" + u(v.func.value))
+            seen_cast.add(u(v.func.value))
+            rep.check(ok, R, ix.site(f, d), "`%s` casts the initialiser with the constructor of the declared type" % re.sub(r"_r\d+", "<result>", txt), "type key `%s`" % tkey, key="cast|" + u(v.func.value))
         elif isinstance(v, ast.Name) and v.id == VAL:
             # uncast path: only under isinstance(value, sym.Expr)
             r = Reach(fn, d)
@@ -94,6 +102,7 @@ def c05_2(rep, ix):
                 rep.check(got == sym, R, ix.site(f, d), "the uncast store is %s when the value %s a SymPy expression" % ("reachable" if sym else "not reachable", "is" if sym else "is not"), key="uncast|%s" % sym)
         else:
             rep.bad(R, ix.site(f, d), "`%s` is a cast with the declared type or the symbolic pass-through" % txt, key="def|" + txt)
+    rep.check("PYTHON_TYPES" in seen_cast, R, ix.site(f), "a non-symbolic initialiser is cast with the Python constructor of the declared type first", "casts seen: %s" % sorted(seen_cast), key="cast first")
     # value comes from the initialiser alternatives (expression | nonnumeric)
     vd = {" ".join(u(n.value).split()) for n in walk_shallow(fn) if isinstance(n, ast.Assign) and u(n.targets[0]) == VAL}
     rep.check(vd == {"_expression(ctx.expression())", "_literal(ctx.nonnumeric())"}, R, ix.site(f), "the initialiser value is the evaluated expression / literal child", "got %s" % sorted(vd), key="value src")
@@ -183,7 +192,7 @@ def c05_4(rep, ix):
                 coll = u(s.value.func.value)
     if coll:
         for s in fn.body:
-            if isinstance(s, ast.If) and always_raises(s.body) and s.lineno > rl.lineno and s.lineno < rs.lineno:
+            if isinstance(s, ast.If) and always_raises(s.body) and pos(s) > pos(rl) and pos(s) < pos(rs):
                 t = " ".join(u(s.test).split())
                 if t in ("len(%s) > 1" % coll, "len(%s) != 1" % coll, "len(set(%s)) > 1" % coll, "len(set(%s)) != 1" % coll, "len(%s) >= 2" % coll, "len(set(%s)) >= 2" % coll,
                          "any((l != %s[0] for l in %s))" % (coll, coll)):
@@ -212,8 +221,12 @@ def c05_5(rep, ix, R="C05.5"):
     okins = False
     for c in ins:
         loops = [l for l in walk_shallow(fn) if isinstance(l, ast.For) and any(x is c for x in ast.walk(l))]
-        if loops and u(loops[-1].iter) == "parameters" and len(c.args) == 3 and u(c.args[1]) == "%s[0]" % u(loops[-1].target) and u(c.args[2]) == "%s[1]" % u(loops[-1].target):
-            okins = True
+        if loops and u(loops[-1].iter) == "parameters" and len(c.args) == 3:
+            t = loops[-1].target
+            if isinstance(t, ast.Name):
+                okins = okins or (u(c.args[1]) == "%s[0]" % t.id and u(c.args[2]) == "%s[1]" % t.id)
+            elif isinstance(t, ast.Tuple) and len(t.elts) == 2 and all(isinstance(e, ast.Name) for e in t.elts):
+                okins = okins or (u(c.args[1]) == t.elts[0].id and u(c.args[2]) == t.elts[1].id)      # `for position, symbol in parameters`
     rep.check(okins, R, ix.site(f, ins[0]) if ins else ix.site(f), "parameters are inserted in recording order with np.insert(array, position, symbol) before the reshape", key="insert")
 
 
